@@ -8,7 +8,7 @@ import random
 import sys
 import numpy as np
 from qk import tf, Q
-from qkeras.qtools.quantized_operators import (quantizer_factory, multiplier_factory, accumulator_factory,
+from qkeras.qtools.quantized_operators import (quantizer_factory, multiplier_factory, accumulator_factory, merge_factory,
                                                 adder_factory)
 from common import write_ndjson
 
@@ -85,6 +85,14 @@ def main():
       events.append({"op": "add", "a": reported(qt[a]), "b": reported(qt[b]), "out": reported(s.output)})
     except Exception as e:
       errors.append({"k": "exc", "op": "add", "w": w, "x": x, "exc": repr(e)[:200]})
+    # merge layers on the same operand pair
+    for kind in ("Add", "Maximum", "Concatenate") if (a + 2 * b) % 3 == 0 or tier == "thorough" else ("Add",):
+      try:
+        mg = merge_factory.MergeFactory().make_quantizer([(qt[a], None), (qt[b], None)], kind)
+        events.append({"op": "merge", "kind": kind, "a": reported(qt[a]), "b": reported(qt[b]), "out": reported(mg.output),
+                       "same": int(reported(qt[a]) == reported(qt[b]))})
+      except Exception as e:
+        errors.append({"k": "exc", "op": "merge", "w": w, "x": x, "exc": repr(e)[:200]})
   write_ndjson("%s.%d.ndjson" % (prefix, shard), events)
   json.dump(errors, open("%s.%d.err.json" % (prefix, shard), "w"))
   print(json.dumps({"events": len(events), "errors": len(errors)}))
